@@ -236,3 +236,115 @@ pub proof fn lemma_wf_frame(a: AV, s: SV, t: SV, lo: int, hi: int)
     assert(word(s, cell_of(s.list, k)) == enc(size_of_cell(s.list, k), next_of(s.list, k)));
   }
 }
+
+// ---- byte-level step lemmas used by the insert / remove code paths -------------------------------------------
+
+/// bytes may differ only inside [lo,hi) or inside a segment of list `l`
+pub open spec fn frame_ok(l: Seq<Node>, b0: Seq<u8>, b1: Seq<u8>, lo: int, hi: int) -> bool {
+  b0.len() == b1.len() && forall|b: int| 0 <= b < b0.len() ==> b1[b] == b0[b] || lo <= b < hi || #[trigger] in_list(l, b)
+}
+
+pub open spec fn store_view(s: SV, c: CellRef, v: u64) -> SV {
+  match c {
+    CellRef::Sentinel => SV { sentinel: v, ..s },
+    CellRef::Node(o) => SV { bytes: splice(s.bytes, o as int, b64(v)), ..s },
+  }
+}
+
+/// the two stores of an insertion (new node word, then predecessor link) establish ins_pre
+pub proof fn lemma_insert_bytes(a: AV, s0: SV, s1: SV, s2: SV, i: int, n: Node)
+  requires
+    wf_shape(a, s0), -1 <= i < s0.list.len(),
+    node_ok(a, s0, n), clear_of_list(s0.list, n.0 as int, node_end(n)),
+    s1 == store_view(s0, CellRef::Node(n.0), enc(n.1, next_of(s0.list, i))),
+    s2 == (SV { list: s0.list.insert(i + 1, n), ..store_view(s1, cell_of(s0.list, i), enc(size_of_cell(s0.list, i), n.0)) }),
+  ensures
+    ins_pre(a, s0, s2, i, n),
+    frame_ok(s0.list, s0.bytes, s2.bytes, n.0 as int, n.0 as int + 8),
+    same_hdr(s0, s2),
+{
+  let l = s0.list;
+  let v1 = enc(n.1, next_of(l, i));
+  let v2 = enc(size_of_cell(l, i), n.0);
+  lemma_word_written(s0.bytes, n.0 as int, v1);
+  // after store 1: all list cells keep their word (n's header is clear of the list)
+  assert forall|k: int| 0 <= k < l.len() implies ((#[trigger] l[k]).0 as int + 8 <= n.0 as int || n.0 as int + 8 <= l[k].0 as int) by {}
+  lemma_words_preserved(a, s0, s1, n.0 as int, n.0 as int + 8);
+  if i >= 0 {
+    let o = l[i].0 as int;
+    assert(node_ok(a, s0, l[i]));
+    lemma_word_written(s1.bytes, o, v2);
+    lemma_headers_apart(l, i, o);
+    // s1 has the same list and header as s0, node_ok carries over
+    assert(nodes_ok(a, s1)) by { assert forall|k: int| 0 <= k < s1.list.len() implies node_ok(a, s1, #[trigger] s1.list[k]) by { assert(node_ok(a, s0, l[k])); } }
+    lemma_words_preserved_except(a, s1, s2, o, o + 8, i);
+    // new node word survives store 2
+    lemma_word_frame(s1.bytes, s2.bytes, o, o + 8, n.0 as int);
+    assert forall|k: int| -1 <= k < l.len() && k != i implies word(s2, #[trigger] cell_of(l, k)) == word(s0, cell_of(l, k)) by {
+      assert(word(s1, cell_of(l, k)) == word(s0, cell_of(l, k)));
+      assert(word(s2, cell_of(s1.list, k)) == word(s1, cell_of(s1.list, k)));
+    }
+    assert(frame_ok(s0.list, s0.bytes, s2.bytes, n.0 as int, n.0 as int + 8)) by {
+      assert forall|b: int| 0 <= b < s0.bytes.len() implies s2.bytes[b] == s0.bytes[b] || n.0 as int <= b < n.0 as int + 8 || #[trigger] in_list(l, b) by {
+        if o <= b < o + 8 { assert(in_node(l[i], b)); }
+      }
+    }
+  } else {
+    assert forall|k: int| -1 <= k < l.len() && k != i implies word(s2, #[trigger] cell_of(l, k)) == word(s0, cell_of(l, k)) by {
+      assert(word(s1, cell_of(l, k)) == word(s0, cell_of(l, k)));
+    }
+  }
+}
+
+/// the single store of a removal (predecessor link skips node i) establishes rem_pre
+pub proof fn lemma_remove_bytes(a: AV, s0: SV, s2: SV, i: int)
+  requires
+    wf_shape(a, s0), 0 <= i < s0.list.len(),
+    s2 == (SV { list: s0.list.remove(i), ..store_view(s0, cell_of(s0.list, i - 1), enc(size_of_cell(s0.list, i - 1), next_of(s0.list, i))) }),
+  ensures
+    rem_pre(a, s0, s2, i),
+    frame_ok(s0.list, s0.bytes, s2.bytes, 0, 0),
+    same_hdr(s0, s2),
+    i == 0 ==> s2.bytes == s0.bytes,
+{
+  let l = s0.list;
+  let v = enc(size_of_cell(l, i - 1), next_of(l, i));
+  if i >= 1 {
+    let o = l[i - 1].0 as int;
+    assert(node_ok(a, s0, l[i - 1]));
+    lemma_word_written(s0.bytes, o, v);
+    lemma_headers_apart(l, i - 1, o);
+    lemma_words_preserved_except(a, s0, s2, o, o + 8, i - 1);
+    assert(frame_ok(s0.list, s0.bytes, s2.bytes, 0, 0)) by {
+      assert forall|b: int| 0 <= b < s0.bytes.len() implies s2.bytes[b] == s0.bytes[b] || 0 <= b < 0 || #[trigger] in_list(l, b) by {
+        if o <= b < o + 8 { assert(in_node(l[i - 1], b)); }
+      }
+    }
+  }
+}
+
+pub proof fn lemma_frame_widen(l: Seq<Node>, b0: Seq<u8>, b1: Seq<u8>, lo: int, hi: int, lo2: int, hi2: int)
+  requires frame_ok(l, b0, b1, lo, hi), lo2 <= lo, hi <= hi2
+  ensures frame_ok(l, b0, b1, lo2, hi2)
+{}
+
+/// arithmetic facts about the node a released range [offset, offset+size) turns into
+pub proof fn lemma_seg_node_bounds(offset: int, size: int)
+  requires offset >= 0
+  ensures 0 <= seg_pad(offset) < 8, align_up(offset, 8) % 8 == 0, align_up(offset, 8) >= offset
+{}
+
+pub proof fn lemma_seg_node_props(a: AV, s: SV, offset: int, size: int)
+  requires
+    geom(a, s), seg_valid(s, offset, size), a.data_offset <= offset, offset + size <= s.allocated,
+    clear_of_list(s.list, offset, offset + size),
+  ensures ({
+    let n = seg_node(offset, size);
+    &&& node_ok(a, s, n)
+    &&& n.0 as int == align_up(offset, 8) && n.1 as int == size - seg_pad(offset) - 8
+    &&& offset <= n.0 as int && node_end(n) == offset + size
+    &&& clear_of_list(s.list, n.0 as int, node_end(n))
+  })
+{
+  lemma_seg_node_bounds(offset, size);
+}
